@@ -1,5 +1,6 @@
 """C10 — saving and reloading the array state is lossless (codec agreement, E7)."""
 from .. import grammar, effects
+import os
 from ..frontend import AnalysisBroken
 
 
@@ -183,6 +184,7 @@ def run(ctx, rep):
     run_closure_rule(P, rep)
     run_expansion_rule(P, rep)
     primitive_roundtrip_rule(P, rep)
+    info_roundtrip_rule(P, rep)
 
 
 # written member -> restored member, when the two sides legitimately use different names
@@ -428,9 +430,9 @@ def run_expansion_rule(P, rep, rid='R-C10-4r'):
     """reader side of a run: the decoded value is applied to every position of the run -- the store inside the per-position
     loop is executed on every iteration (it is not control dependent on any test made inside the loop)"""
     f = P.fn('state_read_content')
-    rep.rule(rid, 'reader: inside each run loop the per-position store (info_set / fs_allocate) is unconditional for the iteration', 3)
+    rep.rule(rid, 'reader: inside each run loop the per-position store (fs_allocate) is unconditional for the iteration', 2)
     n = 0
-    for callee in ('info_set', 'fs_allocate'):
+    for callee in ('fs_allocate',):      # info_set: decided semantically by the round trip R-C10-6
         for c in f.calls(callee):
             h = f.loop_of(c.block)
             if h is None:
@@ -458,7 +460,7 @@ def run_expansion_rule(P, rep, rid='R-C10-4r'):
                         cond.append(f.expr(t.ops[0]))
             n += 1
             rep.check(not cond, rid, '%s at line %s runs for every position of the run' % (callee, c.line), c.loc(), 'unconditional' if not cond else 'executed only when %s' % cond, function='state_read_content', construct='%s unconditional' % callee)
-    if n < 3:
+    if n < 2:
         raise AnalysisBroken('state_read_content: run loops of the reader not recognised (%d stores)' % n)
 
 
@@ -535,3 +537,178 @@ def primitive_roundtrip_rule(P, rep, rid='R-C10-3r'):
                         break
             ok = RG.signed(rv & 0xffffffff, 32) == 0 and got == v and used == len(data) and data == exp
             rep.check(ok, rid, '%s/%s value 0x%x' % (put, get, v), pf.file, '%d bytes' % len(data) if ok else 'written %s (format says %s), read back %s (status %s, consumed %d of %d bytes)' % (data, exp, got, rv, used, len(data)), function=get, construct='round trip %s' % put)
+
+
+def info_roundtrip_rule(P, rep, rid='R-C10-6'):
+    """the per-stripe info record ('i'): the region of the writer that emits it and the region of the reader that decodes it are
+    interpreted back to back (the integers the writer hands to sputb32 are the integers the reader gets from sgetb32) over every
+    info array of length <= 4 drawn from a palette covering no-info, every flag, equal neighbours (run-length), and times at /
+    between / beyond the oldest and present time.  Expected: every position gets its info word back, times clipped to
+    [oldest, now] as documented."""
+    from .. import region as RG
+    from ..guards import guards_of
+    import itertools
+    rep.rule(rid, 'info record round trip through the writer and reader regions: every position gets back its flags and its time (clipped to [oldest, now]) for all arrays of length <= 4 over a 5-value palette', 1000)
+    wf = P.fn('state_write_thread'); rf = P.fn('state_read_content')
+    mk = (P.variants('info_make') or [None])[0]
+    if mk is None:
+        raise AnalysisBroken('info_make not found')
+    # ---- anchors
+    wa = [c for c in wf.calls('sputc') if wf.const_of(c.ops[0]) == ord('i')]
+    if len(wa) != 1:
+        raise AnalysisBroken('writer: sputc(\'i\') anchor not found')
+    wa = wa[0]
+    ra = []
+    for c in rf.calls('sgetb32'):
+        gs = guards_of(rf, c)
+        if any(a.replace(' ', '') == '(c==%d)' % ord('i') and p for a, p in gs):
+            ra.append(c)
+    if not ra:
+        raise AnalysisBroken('reader: branch of the \'i\' record not found')
+    ra = min(ra, key=lambda c: (c.line, c.id))
+    sl = P.distructs.get('snapraid_state')
+    o_prev = [m['off'] for m in sl['members'] if m['name'] == 'prevhash'][0] if sl else None
+    if o_prev is None:
+        raise AnalysisBroken('state->prevhash not found')
+
+    class Abort(Exception):
+        pass
+
+    def alloca_behind(f, o):
+        i = f.inst_of(o)
+        while i is not None and i.op in ('load', 'zext', 'sext', 'trunc', 'bitcast'):
+            j = f.inst_of(i.ops[0])
+            if i.op == 'load' and j is not None and j.op == 'alloca':
+                return j
+            i = j
+        return None
+
+    def run_writer(infos, oldest, now, roles):
+        out = []
+        def ext(ins, args):
+            c = ins.callee
+            if c == 'info_get':
+                pos = args[1]
+                return (infos[pos] if pos < len(infos) else 0,)
+            if c == 'sputb32':
+                out.append(args[0] & 0xffffffff); return (0,)
+            if c == 'sputc':
+                out.append(('c', args[0] & 0xff)); return (0,)
+            if c == 'serror':
+                return (0,)
+            if c in ('log_fatal', 'log_tag'):
+                return (0,)
+            return None
+        R = RG.Region(P, extern=ext)
+        R.discover = []
+        for aid, v in roles.items():
+            pl = R.local_by_id(wf, aid); R.mem[(pl.reg, 0)] = v
+        try:
+            R.run(wf, wa.block, stop=lambda ins: ins.callee not in ('info_get', 'sputb32', 'sputc', 'serror', 'log_fatal', 'log_tag') and not (P.functions.get(ins.callee_full) is not None and not P.functions[ins.callee_full].decl and (ins.callee or '').startswith('info_')), start_idx=wa.idx)
+        except RG.Stop:
+            pass
+        return out, R
+    # ---- discover the writer's inputs by role
+    sp = [c for c in wf.calls('sputb32') if c.id in wf.reach([wa])]
+    first_put = min(sp, key=lambda c: (c.block != wa.block, c.line, c.id))
+    a_old = alloca_behind(wf, first_put.ops[0])
+    if a_old is None:
+        raise AnalysisBroken('writer: the base time written after the tag is not a local')
+    probe_infos = [RG.Region(P).run(mk, 0, [24, 0, 0, 0])] * 2
+    found = {}
+    for _ in range(3):
+        roles_ = {a_old.id: 16}
+        for aid, ty in found.items():
+            roles_[aid] = 2 if ty == 'i32' else 20
+        _, Rp = run_writer(probe_infos, 16, 40, roles_)
+        for aid, o_, ty in Rp.discover:
+            if aid != a_old.id and ty in ('i32', 'i64'):
+                found[aid] = ty
+    ins32 = sorted(aid for aid, ty in found.items() if ty == 'i32')
+    ins64 = sorted(aid for aid, ty in found.items() if ty == 'i64')
+    if len(ins32) != 1 or len(ins64) != 1:
+        raise AnalysisBroken('writer: inputs of the info region not identified (32-bit %s, 64-bit %s)' % (ins32, ins64))
+    a_bm, a_now = ins32[0], ins64[0]
+
+    def run_reader(nums, n, required=None):
+        q = list(nums)
+        got = {}
+        def ext(ins, args):
+            c = ins.callee
+            if c == 'sgetb32':
+                if not q:
+                    return (0xffffffff,)
+                v = q.pop(0)
+                R.mem[(args[1].reg, args[1].off)] = v
+                return (0,)
+            if c == 'info_set':
+                got[args[1]] = args[2] & 0xffffffff; return (0,)
+            if c == 'fs_info_is_required':
+                # a position needs an info exactly when some disk has a block there: in the model, when the array has one
+                return (1 if (required is None or (args[1] < len(required) and required[args[1]])) else 0,)
+            if c in ('decoding_error', 'log_fatal'):
+                return (0,)
+            if c == 'os_abort':
+                raise Abort()
+            return None
+        R = RG.Region(P, extern=ext)
+        R.discover = []
+        stp = RG.P_(('obj', 'state'), 0); R.zero_regions.add(stp.reg); R.mem[(stp.reg, o_prev)] = 1
+        pth = RG.P_(('str', 'path'), 0); R.mem[(pth.reg, 0)] = 0
+        fp = RG.P_(('obj', 'stream'), 0); R.zero_regions.add(fp.reg)
+        for aid, v in reader_roles.items():
+            pl = R.local_by_id(rf, aid); R.mem[(pl.reg, 0)] = v(n) if callable(v) else v
+        try:
+            R.run(rf, ra.block, [stp, pth, fp], stop=lambda ins: ins.callee not in ('sgetb32', 'info_set', 'fs_info_is_required', 'decoding_error', 'log_fatal', 'os_abort') and not ((ins.callee or '').startswith('info_')), start_idx=ra.idx)
+        except RG.Stop:
+            pass
+        except Abort:
+            return None, R
+        return got, R
+    reader_roles = {}
+    _, Rq = run_reader([16, 2, 1, 8], 2)
+    r32 = sorted({aid for aid, o_, ty in Rq.discover if ty == 'i32'})
+    if len(r32) != 1:
+        raise AnalysisBroken('reader: the block count local of the info branch was not identified (%s)' % r32)
+    reader_roles = {r32[0]: (lambda n: n)}
+
+    OLD = 16
+    palette = [None, (16, 0, 0, 0), (24, 1, 0, 0), (24, 0, 1, 1), (40, 0, 0, 1)]
+    words = {p: (0 if p is None else RG.Region(P).run(mk, 0, list(p))) for p in palette}
+    bad = None
+    nrun = 0
+    for n in range(1, 5):
+        for arr in itertools.product(palette, repeat=n):
+            if all(a is None for a in arr):
+                continue
+            for now in (24, 40):
+                nrun += 1
+                infos = [words[a] for a in arr]
+                out, _ = run_writer(infos, OLD, now, {a_old.id: OLD, a_bm: n, a_now: now})
+                nums = [x for x in out if not isinstance(x, tuple)]
+                tags = [x for x in out if isinstance(x, tuple)]
+                if not tags or tags[0] != ('c', ord('i')):
+                    raise AnalysisBroken('writer region did not start with the record tag')
+                want = {}
+                for pos, a in enumerate(arr):
+                    if a is None:
+                        want[pos] = 0
+                    else:
+                        t = max(min(a[0], now), OLD)
+                        want[pos] = RG.Region(P).run(mk, 0, [t, a[1], a[2], a[3]]) & 0xffffffff
+                # two models of "which positions need an info": every position that has one (synced stripes), and none
+                # (stripes whose blocks are all pending still carry their info and must keep it)
+                for required in ([a is not None for a in arr], [False] * n):
+                    got, _ = run_reader(nums, n, required)
+                    # a position never passed to info_set keeps the array default 0
+                    if got is None or any((got.get(pos) or 0) != want[pos] for pos in range(n)):
+                        if bad is None:
+                            bad = 'stripes %s (time, bad, rehash, justsynced; oldest %d, now %d; info required at %s): written as %s, read back as %s, expected %s' % (
+                                [a for a in arr], OLD, now, required, nums, 'a decoding error' if got is None else [got.get(p_) or 0 for p_ in range(n)], [want[p_] for p_ in range(n)])
+                if bad is not None:
+                    pass
+                elif bad is None:
+                    rep.ok(rid, '%s now %d' % (arr, now))
+    if bad:
+        rep.fail(rid, 'info record round trip', wf.file, bad, function='state_write_thread', construct='info round trip')
+    rep.extra['info_roundtrips'] = nrun
